@@ -28,8 +28,8 @@ RULE = ("two peptides with one cysteine each (cysteine at N-terminal, internal o
         "distinct = (side of the limit, distance class, chain scheme, order, cys positions, decoy, force field)")
 ASSUMPTIONS = ["ground truth distances are recomputed from the 3-decimal coordinates in the file and cases within "
                "1e-6 of the limit are discarded"]
-MIN = {"quick": {"placements": 250, "bridged_pairs_checked": 90, "free_pairs_checked": 90, "near_limit": 100},
-       "thorough": {"placements": 4500, "bridged_pairs_checked": 1800, "free_pairs_checked": 1800, "near_limit": 2000}}
+MIN = {"quick": {"placements": 250, "bridged_pairs_checked": 90, "free_pairs_checked": 90, "near_limit": 100, "real_structures": 6},
+       "thorough": {"placements": 4500, "bridged_pairs_checked": 1800, "free_pairs_checked": 1800, "near_limit": 2000, "real_structures": 500}}
 LIMIT = 2.5
 
 
